@@ -30,3 +30,8 @@ pub fn install_panic_hook() {
 pub fn case_to_json(case: &scenario::Case) -> String {
     serde_json::to_string(case).unwrap_or_default()
 }
+
+/// One-line replay file (`vcheck <prop> --replay <file>`) for an input found by a fuzz target.
+pub fn replay_json<T: serde::Serialize>(kind: &str, prop: &str, sig: &str, input: &T) -> String {
+    serde_json::json!({"kind": kind, "property": prop, "signature": sig, "found_by": "libFuzzer", "input": input}).to_string()
+}
